@@ -182,6 +182,107 @@ pub fn instantiate(max_free: usize) -> Vec<(usize, String)> {
     out
 }
 
+/// Every template with its default operands, its last line cut after every token (optional clauses and
+/// trailing arguments missing) and with every single token of that line deleted.
+pub fn edited_templates() -> Vec<String> {
+    use crate::btok::{TokKind, tokenize};
+    let mut out = vec![];
+    for t in TEMPLATES {
+        let t = parse_template(t);
+        let defaults: Vec<&str> = t.defaults.iter().map(|s| s.as_str()).collect();
+        let full = t.fill(&defaults);
+        let (head, last) = match full.rfind('\n') {
+            Some(i) => (&full[..=i], &full[i + 1..]),
+            None => ("", full.as_str()),
+        };
+        let toks = tokenize(last);
+        let solid: Vec<usize> = (0..toks.len()).filter(|i| !matches!(toks[*i].kind, TokKind::Blank | TokKind::Eol)).collect();
+        for (k, &ti) in solid.iter().enumerate() {
+            // prefix ending with this token (the whole line is the unedited template)
+            if k + 1 < solid.len() {
+                let text: String = toks[..=ti].iter().map(|x| x.text.as_str()).collect();
+                out.push(format!("{}{}", head, text.trim_end()));
+            }
+            // this token deleted
+            let text: String = toks.iter().enumerate().filter(|(i, _)| *i != ti).map(|(_, x)| x.text.as_str()).collect();
+            out.push(format!("{}{}", head, text.trim_end()));
+        }
+    }
+    out.sort();
+    out.dedup();
+    out
+}
+
+/// Tokens far longer than any statement needs: identifiers, numbers in every notation, string literals,
+/// comments, argument and subscript lists, PRINT lists, lines and files of many lines.
+pub fn long_token_programs() -> Vec<String> {
+    let mut out = vec![];
+    let ident = |n: usize| -> String { "LongIdentifierNumberOne234567890123456789012345678901234567890".repeat(1 + n / 60).chars().take(n).collect() };
+    for n in [39usize, 40, 41, 64, 255, 256, 1000] {
+        let id = ident(n);
+        out.push(format!("{} = 1\nPRINT {}\n", id, id));
+        out.push(format!("{}$ = \"x\"\nPRINT {}$\n", id, id));
+        out.push(format!("DIM {} AS INTEGER\n", id));
+        out.push(format!("GOTO {}\n{}:\n", id, id));
+        out.push(format!("CALL {}(1)\n", id));
+        out.push(format!("PRINT \"{}\"\n", id));
+        out.push(format!("PRINT 1 ' {}\n", id));
+        out.push(format!("REM {}\n", id));
+        out.push(format!("DATA {}\n", id));
+        out.push(format!("TYPE T\n {} AS INTEGER\nEND TYPE\n", id));
+    }
+    for n in [5usize, 9, 10, 11, 16, 17, 19, 20, 21, 22, 23, 39, 40, 41, 100, 310, 400, 5000] {
+        let nine = "9".repeat(n);
+        let one = format!("1{}", "0".repeat(n - 1));
+        for d in [&nine, &one] {
+            out.push(format!("PRINT {}\n", d));
+            out.push(format!("PRINT {}.5\n", d));
+            out.push(format!("PRINT {}.5#\n", d));
+            out.push(format!("PRINT .{}\n", d));
+            out.push(format!("PRINT 1.{}#\n", d));
+            out.push(format!("X% = {}\n", d));
+            out.push(format!("DATA {}\nREAD X\n", d));
+            out.push(format!("DIM A({})\n", d));
+            out.push(format!("CONST C = {}\n", d));
+        }
+        out.push(format!("PRINT &H{}\n", "F".repeat(n)));
+        out.push(format!("PRINT &H1{}\n", "0".repeat(n)));
+        out.push(format!("PRINT &O{}\n", "7".repeat(n)));
+        out.push(format!("PRINT &O1{}\n", "0".repeat(n)));
+        out.push(format!("PRINT -&h{}\n", "f".repeat(n)));
+        out.push(format!("CONST C = &H{}\n", "F".repeat(n)));
+        out.push(format!("DIM A(&O{})\n", "7".repeat(n)));
+    }
+    for n in [10usize, 100, 1000] {
+        let args: Vec<String> = (0..n).map(|i| (i % 7).to_string()).collect();
+        out.push(format!("PRINT {}\n", args.join("; ")));
+        out.push(format!("PRINT {}\n", args.join(", ")));
+        out.push(format!("X = {}\n", args.join(" + ")));
+        out.push(format!("P {}\n", args.join(", ")));
+        out.push(format!("X = F({})\n", args.join(", ")));
+        out.push(format!("DIM A({})\n", args.join(", ")));
+        out.push(format!("A({}) = 1\n", args.join(", ")));
+        out.push(format!("DATA {}\n", args.join(", ")));
+        out.push(format!("READ {}\n", (0..n).map(|i| format!("V{}", i)).collect::<Vec<_>>().join(", ")));
+        out.push(format!("SELECT CASE X\nCASE {}\nEND SELECT\n", args.join(", ")));
+        out.push(format!("DIM {}\n", (0..n).map(|i| format!("V{}", i)).collect::<Vec<_>>().join(", ")));
+        out.push(format!("X = 1{}\n", " ".repeat(n * 70)));
+        out.push(format!("{}X = 1\n", " ".repeat(n * 70)));
+        out.push(format!("X = 1{}", "\n".repeat(n * 70)));
+        out.push(format!("{}", ":".repeat(n)));
+        out.push(format!("X = 1{}Y = 2\n", ":".repeat(n)));
+    }
+    // many lines: a diagnostic beyond row 65536
+    let mut many = String::new();
+    for i in 0..66000 {
+        many.push_str(if i % 2 == 0 { "X = 1\n" } else { "' c\n" });
+    }
+    out.push(format!("{}X = = 2\n", many));
+    out.push(format!("{}GOTO Nowhere\n", many));
+    out.push(format!("{}PRINT 1\n", many));
+    out
+}
+
 /// The full program text for one instantiated statement.
 pub fn program(stmt: &str) -> String {
     format!("{}{}\n{}", HEADER, stmt, FOOTER)
